@@ -158,6 +158,9 @@ func Go(f func()) {
 // GoNamed starts a harness thread that is expected to terminate ("main" thread).
 func GoNamed(name string, f func()) {
 	s := active
+	if s == nil && freeSpawn(name, f) {
+		return
+	}
 	if s == nil || s.cur == nil {
 		panic("vrt.GoNamed outside an exploration")
 	}
